@@ -692,6 +692,8 @@ def atomsScannable : PExpr → Bool
   | .range _ a b => atomsScannable a && atomsScannable b
   | .index a i => atomsScannable a && atomsScannable i
   | .call f args => atomsScannable f && atomsScannableList args
+  | .ifE _ _ _ => false
+  | .fnE _ _ => false
 def atomsScannableList : List PExpr → Bool
   | [] => true
   | e :: es => atomsScannable e && atomsScannableList es
@@ -767,6 +769,8 @@ theorem render_scannable (T : Tbl) : ∀ (x : PExpr), wfT T x = true → atomsSc
     rw [renderT]
     exact AllSc.append (AllSc.wrap _ (render_scannable T f hw.1 h.1))
       (AllSc.cons (sc_op (by decide)) (renderArgs_scannable T args hw.2 h.2))
+  | .ifE _ _ _, hw, _ => by simp [wfT] at hw
+  | .fnE _ _, hw, _ => by simp [wfT] at hw
 theorem renderArgs_scannable (T : Tbl) : ∀ (es : List PExpr), wfListT T es = true →
     atomsScannableList es = true → AllSc (renderArgsT T es)
   | [], _, _ => by rw [renderArgsT]; exact AllSc.cons (sc_op (by decide)) AllSc.nil
